@@ -46,11 +46,13 @@ def Blank (x : Str) : Prop := ∀ c ∈ x, isWs c = true
 instance (x : Str) : Decidable (Blank x) := inferInstanceAs (Decidable (∀ c ∈ x, isWs c = true))
 
 /-- what `top$` / `stack$` print for a value: the decimal representation of an integer, a
-string as it is (a missing field as the empty string) -/
+string as it is (a missing field as the empty string); for a function or variable object Python
+prints its `repr` (which may contain a memory address): abstracted to the tag `<object>` -/
 def shown : Val → Str
   | .int n => (toString n).toList
   | .str x => x
-  | _ => []
+  | .missing _ => []
+  | .fn _ | .ref _ => "<object>".toList
 
 /-- the characters after which `add.period$` adds nothing -/
 def EndsSentence (c : Char) : Prop := c = '.' ∨ c = '?' ∨ c = '!'
